@@ -262,7 +262,7 @@ func makeField(v reflect.Value, params fieldParameters) (encoder, error) {
 					var err error
 					berType.value, err = makeField(val.Field(present), tempParams)
 					if err != nil {
-						fmt.Println(err)
+						return nil, err
 					}
 				}
 			} else {
